@@ -681,6 +681,9 @@ func (fv *FuncVC) instr1(in ssa.Instruction) {
 		// maps are opaque
 	case *ssa.Range:
 		fv.vals[in] = Val{T: fv.fresh("range", SRef)}
+		if _, isStr := in.X.Type().Underlying().(*types.Basic); isStr {
+			fv.cur.ghost["iter."+in.Name()] = Term{S: "0", Sort: SMath}
+		}
 	case *ssa.Next:
 		fv.next(in)
 	case *ssa.Defer:
@@ -1026,6 +1029,38 @@ func (fv *FuncVC) lookup(in *ssa.Lookup) {
 
 func (fv *FuncVC) next(in *ssa.Next) {
 	tt := in.Type().(*types.Tuple)
+	if rg, isRange := in.Iter.(*ssa.Range); isRange && in.IsString && fv.Mode == ModeInt {
+		// range over a string: a hidden position (ghost iter.<range>, `rangepos` in invariants) that
+		// starts at 0 and advances by the width of the rune at it (1 for an ASCII byte, at most 4)
+		s := fv.term(rg.X)
+		key := "iter." + rg.Name()
+		pos := fv.ghostTerm(fv.cur, key, SMath)
+		if !fv.iterInit[key] {
+			if fv.iterInit == nil {
+				fv.iterInit = map[string]bool{}
+			}
+			fv.iterInit[key] = true
+		}
+		ok := Term{S: app("<", pos.S, fv.lenOf(s)), Sort: SBool}
+		np := fv.fresh("iterpos", SMath)
+		b0 := fv.elemAt(s, pos.S)
+		fv.assert(app("=>", ok.S, smtAnd(app(">", np.S, pos.S), app("<=", np.S, fv.lenOf(s)), app("<=", np.S, app("+", pos.S, "4")), app("=>", app("<", b0, "128"), app("=", np.S, app("+", pos.S, "1"))))))
+		fv.assert(app("=>", smtNot(ok.S), app("=", np.S, pos.S)))
+		fv.assert(app(">=", pos.S, "0"))
+		fv.cur.ghost[key] = np
+		var rv Val
+		if b, isb := tt.At(2).Type().(*types.Basic); !isb || b.Kind() != types.Invalid {
+			r := fv.freshWF("next_rune", tt.At(2).Type())
+			r.Go = tt.At(2).Type()
+			rv = Val{T: r}
+		}
+		var kv Val
+		if b, isb := tt.At(1).Type().(*types.Basic); !isb || b.Kind() != types.Invalid {
+			kv = Val{T: Term{S: pos.S, Sort: SInt, Go: types.Typ[types.Int]}}
+		}
+		fv.vals[in] = Val{Tuple: []Val{{T: ok}, kv, rv}}
+		return
+	}
 	ok := fv.fresh("next_ok", SBool)
 	var vs []Val
 	vs = append(vs, Val{T: ok})
